@@ -364,7 +364,10 @@ class Scheduler:
                 if h in fn:
                     hot = True
                     break
-        r = (bool(it), zlib.crc32(fn.rsplit('/', 1)[-1].encode()) & 0xffff, hot)
+        base = fn.rsplit('/', 1)[-1]
+        if base.startswith('<@beartype'):
+            base = base.split(' at 0x', 1)[0]       # generated code: drop the address
+        r = (bool(it), zlib.crc32(base.encode()) & 0xffff, hot)
         self._fncache[code] = r
         return r
 
